@@ -21,10 +21,6 @@ def known_class(j, cat, text):
         return "KF-WAV-GSM-PAD"
     if f.major == 0x0F and cat in ("partition", "frames", "eof", "stale"):
         return "KF-XI-HEADER"
-    if f.major == 0x08 and cat == "snapshot":
-        return "KF-VOC-UPDATE"
-    if f.major == 0x08 and f.codec in (0x10, 0x11) and j.ch == 1 and cat in ("frames", "eof"):
-        return "KF-VOC-MONO-G711"
     if f.major == 0x0E and j.sr < 10 and j.n == 0 and cat in ("reopen", "snapshot", "roundtrip"):
         return "KF-PVF-TINY-FILE"
     if f.major == 0x0E and j.sr < 10 and cat == "snapshot" and text.startswith("crash-point image after 0 frames cannot be opened"):
